@@ -1,20 +1,30 @@
 """C01 — detector pairs and sinogram bins form a consistent partition.
-1. TLC proves the partition theorems T1-T6 of Geometry.tla for every small configuration.
-2. The driver records what the real geometry classes answer (exhaustively for small generated
-   scanners incl. BlocksOnCylindrical, sampled for the whole scanner database and rings up to
-   1000 detectors); TLC (Trace_Geometry) must explain every recorded line."""
+1. TLC proves the theorems of Geometry.tla for every small configuration: the partition theorems T1-T7, sizes (T8),
+   view subsets (T9), legal in-place changes (T13) in MC_Geometry; equality / containment order of configurations
+   (T10-T12) and the comparison operators of positions, pairs and bins (T14) in MC_GeometryOrder.
+2. The driver records what the real geometry classes answer (exhaustively for small generated scanners incl.
+   BlocksOnCylindrical and Generic, sampled for the whole scanner database and rings up to 1000 detectors; fresh
+   objects, objects whose copies were changed, objects changed in place; view subsets; operator== / >=; scanner
+   consistency and equality); TLC (Trace_Geometry) must explain every recorded line."""
 import os, json
+import concurrent.futures as cf
 from . import lib
 
 
 def run(ctx):
     q = ctx.quick
-    # 1. model check of the specification itself
-    # thorough: two families (N <= 12, R <= 3, TOF mashing <= 5) and (N <= 8, R <= 4, TOF mashing <= 3); the single
+    # 1. model checks of the specification itself (run concurrently with recording; 4 workers each in the quick tier)
+    # thorough MC_Geometry: two families (N <= 12, R <= 3, TOF mashing <= 5) and (N <= 8, R <= 4, TOF mashing <= 3); the single
     # (12, 4, 5) family needed > 40 min on a loaded machine
-    for cfg in (["MC_Geometry"] if q else ["MC_Geometry_thorough", "MC_Geometry_thorough2"]):
-        r = lib.tlc("MC_Geometry", cfg=cfg, workers=lib.NCPU if q else 8, timeout=2400, heap="12g")
-        ctx.mc_must_pass(r, "partition theorems T1-T7 (%s)" % cfg, "MC_Geometry")
+    mcs = [("MC_Geometry", "MC_Geometry", "partition, size, subset, change theorems T1-T9, T13")] if q else \
+          [("MC_Geometry", "MC_Geometry_thorough", "theorems T1-T9, T13 (N<=12, R<=3)"), ("MC_Geometry", "MC_Geometry_thorough2", "theorems T1-T9, T13 (N<=8, R<=4)")]
+    mcs.append(("MC_GeometryOrder", "MC_GeometryOrder" if q else "MC_GeometryOrder_thorough", "equality/containment theorems T10-T12, comparison operators T14"))
+    pool = cf.ThreadPoolExecutor(4)
+    futs = [(m, cfg, what, pool.submit(lib.tlc, m, cfg=cfg, workers=4 if q else 8, timeout=2400, heap="6g" if q else "12g", tag=cfg)) for (m, cfg, what) in mcs]
+    vac = []
+    if not q:
+        # non-vacuity of T10-T12: the "never seen" invariants must be violated (a witness pair exists)
+        vac = [(cfg, pool.submit(lib.tlc, "MC_GeometryOrder", cfg=cfg, workers=2, timeout=900, heap="4g", tag=cfg)) for cfg in ("MC_GeometryOrder_vac1", "MC_GeometryOrder_vac2")]
     # 2. record
     exe = lib.build_driver("c01_geometry")
     traces = []
@@ -23,17 +33,26 @@ def run(ctx):
         traces = [ctx.replay]
     else:
         t1 = os.path.join(ctx.work, "small.ndjson")
-        lib.run_driver(exe, ["small", t1, 250 if q else 1200, 0 if q else 1], env=env, timeout=1200)
+        lib.run_driver(exe, ["small", t1, 90 if q else 500, 0 if q else 1], env=env, timeout=1200)
         t2 = os.path.join(ctx.work, "db.ndjson")
-        lib.run_driver(exe, ["db", t2, 120 if q else 600], env=env, timeout=1200)
+        lib.run_driver(exe, ["db", t2, 70 if q else 400], env=env, timeout=1200)
         traces = [t1, t2]
     # 3. validate (chunks in parallel)
     chunks = []
     for t in traces:
         chunks += lib.split_trace(t, os.path.join(ctx.work, "chunks"), maxlines=25000)
     res = lib.validate_parallel("Trace_Geometry", [c[0] for c in chunks], jobs=8 if q else 12, timeout=2400)
+    for (m, cfg, what, f) in futs:
+        ctx.mc_must_pass(f.result(), "%s (%s)" % (what, cfg), m)
+    for (cfg, f) in vac:
+        r = f.result()
+        if not r.violation:
+            raise lib.ModelFailure("vacuity check %s: no witness found (rc=%d)\n%s" % (cfg, r.rc, r.out[-1500:]))
+        ctx.notes.append("%s: witness found (both outcomes of >= occur in the model-checked family)" % cfg)
+    pool.shutdown()
     known_ids = {k["id"] for k in ctx.known}
     nconf = 0
+    kinds = {}
     for (p, ok, r, at) in res:
         recs = lib.read_ndjson(p)
         ctx.traces += 1
@@ -42,11 +61,20 @@ def run(ctx):
         ctx.states += r.distinct
         cid = None
         for rec in recs:
+            kinds[rec["e"]] = kinds.get(rec["e"], 0) + 1
             if rec["e"] == "Config":
-                cid = (rec["name"], rec["geom"], rec["N"], rec["R"], rec["span"], rec["ge"], rec["maxDelta"], rec["mash"], rec["tofMash"], rec["minTang"], rec["maxSeg"])
+                cid = (rec["name"], rec["geom"], rec["N"], rec["R"], rec["span"], rec["ge"], rec["maxDelta"], rec["mash"], rec["tofMash"], rec["minTang"], rec["maxTang"], rec["minSeg"], rec["maxSeg"])
                 nconf += 1
-                if nconf % 97 == 1:
-                    ctx.sample({k: rec[k] for k in ("name", "geom", "N", "R", "span", "ge", "maxDelta", "mash", "tofMash", "minTang", "maxTang", "maxSeg")})
+                if nconf % 197 == 1:
+                    ctx.sample({k: rec[k] for k in ("name", "geom", "N", "R", "span", "ge", "maxDelta", "mash", "tofMash", "minTang", "maxTang", "minSeg", "maxSeg")})
+            elif rec["e"] in ("Cmp", "ScCmp", "Scanner", "DPCmp", "DPPCmp", "BinCmp"):
+                # self-contained lines: distinct by the compared descriptions / outcome
+                if rec["e"] == "Cmp":
+                    ctx.nontrivial("Cmp" + rec["how"] + str((rec["a"]["N"], rec["a"]["R"], rec["a"]["span"], rec["a"]["maxDelta"], rec["ge"], rec["le"], rec["eq"])))
+                elif rec["e"] == "Scanner":
+                    ctx.nontrivial("Scanner" + rec["s"]["name"] + str((rec["s"]["N"], rec["s"]["R"], rec["consistent"])))
+                else:
+                    ctx.nontrivial(rec["e"] + str(sorted((k, v) for k, v in rec.items() if isinstance(v, bool))))
             elif cid:
                 ctx.nontrivial(str(cid) + rec["e"])
         if at is not None or not ok:
@@ -61,23 +89,28 @@ def run(ctx):
             else:
                 newbad.append(ln)
         if newbad:
-            # replay file: the configuration line + the unexplained lines
-            cfgline, out = None, []
+            # replay file: the configuration (and view subset) lines + the unexplained lines
+            cfgline, subline, out = None, None, []
             for i, rec in enumerate(recs, 1):
                 if rec["e"] == "Config":
-                    cfgline = rec
+                    cfgline, subline = rec, None
+                if rec["e"] == "Sub":
+                    subline = rec
                 if i in newbad[:20]:
-                    if cfgline is not None and (not out or out[-1] is not cfgline) and cfgline not in out:
-                        out.append(cfgline)
-                    if rec is not cfgline:
-                        out.append(rec)
+                    for ctxline in (cfgline, subline):
+                        if ctxline is not None and ctxline is not rec and not any(o is ctxline for o in out):
+                            out.append(ctxline)
+                    out.append(rec)
             rp = os.path.join(ctx.work, "violation-" + os.path.basename(p))
             lib.write_ndjson(rp, out)
-            ctx.violation("%d recorded answers not explained by Geometry.tla, first: %s" % (len(newbad), json.dumps(out[-1])[:200]), rp)
+            ctx.violation("%d recorded answers not explained by Geometry.tla, first: %s" % (len(newbad), json.dumps(out[-1])[:300]), rp)
     ctx.extra["configurations"] = nconf
+    ctx.extra["lines_by_kind"] = kinds
     ctx.exhaustive = False
     ctx.assumptions = ["uniqueness of the in-plane preimage (T1) is model-checked for N <= %d and assumed for larger rings, where the trace check verifies the logged preimage by the forward map" % (8 if q else 12),
-                       "BlocksOnCylindrical/Generic data: span 1, no view mashing, non-TOF only (documented restriction of those classes)"]
-    return ctx.finish(rule="one evaluation = one recorded answer of the real geometry classes (ring pair->segment/axial position, "
-                      "(segment,axial position)->ring pairs, ordered detector pair->view/tangential position, pair+TOF->bin, bin->all pairs, bin->pair); "
+                       "BlocksOnCylindrical/Generic data: span 1, no view mashing, non-TOF only (documented restriction of those classes)",
+                       "equality of scanners: float parameters are compared only as 'identical' / 'more than one unit apart' (the tolerance of close_enough is not modelled)"]
+    return ctx.finish(rule="one evaluation = one recorded answer of the real classes (ring pair->segment/axial position, (segment,axial position)->ring pairs, "
+                      "ordered detector pair->view/tangential position, pair+TOF->bin, bin->all pairs, bin->pair, sizes, subset bin<->full bin, operator==/>=, "
+                      "comparison of positions/pairs/bins, scanner consistency/equality); "
                       "distinct_nontrivial = distinct (configuration, kind of answer) combinations validated")
